@@ -34,8 +34,8 @@ MOD = "mcverif.checks.c01"
 
 BOUNDS = {
     # shape key -> BFS depth; "closure" shapes run until the frontier is empty (or CLOSURE_DEPTH)
-    "quick": {"a7": 3, "b7": 3, "c": 2, "d": 2, "dT": 2},
-    "thorough": {"a7": 5, "b7": 5, "c": 4, "d": 4, "dT": 3},
+    "quick": {"a7": 3, "b7": 4, "c": 3, "d": 2, "dT": 2},
+    "thorough": {"a7": 5, "b7": 8, "c": 4, "d": 4, "dT": 4},
 }
 CLOSURE_DEPTH = 80
 CLOSURE_CAP = {"quick": 6000, "thorough": 60000}  # safety cap on canonical states of one closure search
@@ -214,7 +214,7 @@ def _spec_c5():
 
     spec = build.hex_spec(pins=False, rings=2, nblocks=2, two_designs=False, sfp=False, cells=[(0, 0)])
     spec["blocks"] = {"dummy": build.dummy_block()}
-    spec["assemblies"] = {"igniter fuel": build.assem("IC", ["dummy", "dummy"], [10.0, 12.0], ["A", "A"])}
+    spec["assemblies"] = {"igniter fuel": build.assem("IC", ["dummy"], [10.0], ["A"])}
     return spec
 
 
@@ -242,6 +242,8 @@ def build_world(init, nocache=False):
         cs = build.settings()
         spec = _spec_b5() if n == 5 else build.hex_spec(pins=True, rings=2, nblocks=2, two_designs=False, sfp=False, cells=[(0, 0)])
         bp = _bp(spec, nocache)
+        bp._prepConstruction(cs)
+        random.seed(2000 + int(init.get("seed", 0)))
         a = bp.constructAssem(cs, name="igniter fuel")
         w.keep += [bp, cs]
         w.label_tree(a)
@@ -254,6 +256,8 @@ def build_world(init, nocache=False):
         cs = build.settings()
         spec = _spec_c5() if n == 5 else build.hex_spec(pins=True, rings=2, nblocks=3, two_designs=False, sfp=False, cells=[(0, 0)])
         bp = _bp(spec, nocache)
+        bp._prepConstruction(cs)
+        random.seed(2000 + int(init.get("seed", 0)))
         a = bp.constructAssem(cs, name="igniter fuel")
         w.keep += [bp, cs]
         w.label_tree(a)
@@ -299,7 +303,7 @@ def _build_a(w, n):
     def G(name, typ):
         c = Generic(name)
         c.setType(typ)
-        c.spatialGrid = grids.CartesianGrid.fromRectangle(1.0, 1.0, armiObject=c)
+        c.spatialGrid = grids.CartesianGrid.fromRectangle(1.0, 1.0, numRings=1, armiObject=c)
         return c
 
     def K(name, mat, od):
@@ -350,7 +354,8 @@ def _own(w, g):
         return "noowner"
     l = w.lab.get(id(ao))
     if l is None:
-        return "ext"
+        # e.g. the throw-away copy made by replaceBlockWithBlock, whose grid the new components keep
+        return "ext:%s:%s" % (type(ao).__name__, getattr(ao, "name", "?"))
     return l if ao.spatialGrid is g else "stale%s" % l
 
 
@@ -366,13 +371,11 @@ def locsig(w, o):
 
 
 def gridsig(w, o):
-    from mcverif import observe
-
     g = o.spatialGrid
     if g is None:
         return None
     try:
-        red = observe.canon_value(tuple(g.reduce()))
+        red = repr(tuple(g.reduce()))
     except Exception as e:
         red = "raises " + type(e).__name__
     return [type(g).__name__, _own(w, g), red]
@@ -383,7 +386,7 @@ def snap(w):
     out = []
     for l, o in enumerate(w.objs):
         p = o.parent
-        out.append([l, None if p is None else w.L(p), [w.L(c) for c in o], getattr(o, "name", None), locsig(w, o), gridsig(w, o)])
+        out.append([l, None if p is None else w.L(p), [w.L(c) for c in o], [getattr(o, "name", None), _gettype(o), sorted(fnames(o.p.flags))], locsig(w, o), gridsig(w, o)])
     return out
 
 
@@ -414,6 +417,12 @@ CONTRACT = {
     "sort": ("ValueError", "NotImplementedError", "TypeError"),
 }
 MISUSE = ("addDup", "insertDup", "removeForeign", "addWrongType", "coreAddOcc")
+# violation classes of pure observers (model and tree are still in step): the search is repeated
+# tolerating them, so that the states behind them are explored too
+
+
+def tolerable(key):
+    return key == "c01/detached-multilocation-sublocations-attached" or key.startswith(("c01/query/", "c01/copy-", "c01/grid-owner-mismatch"))
 
 
 def enabled_ops(w, m):
@@ -514,16 +523,22 @@ def _pick(o, i):
     return ks[0] if i == 0 else ks[-1]
 
 
-def _model_sort(o, acc):
-    """What list.sort()/sorted() makes of the child lists with the objects' own ``<`` (Composite.sort
-    sorts a node then recurses into its children in the new order)."""
+def _child_lists(o, acc):
+    acc[id(o)] = [c for c in o]
+    for c in acc[id(o)]:
+        _child_lists(c, acc)
+
+
+def _model_sort(o, before, acc):
+    """What sorted() makes of the child lists as they were ``before``, with the objects' own ``<``
+    (Composite.sort sorts a node, then recurses into its children in the new order)."""
     from armi.reactor import composites
 
-    ks = sorted([c for c in o])
+    ks = sorted(before[id(o)])
     acc.append((o, ks))
     for c in ks:
         if isinstance(c, composites.Composite):
-            _model_sort(c, acc)
+            _model_sort(c, before, acc)
 
 
 def _free_cell(w):
@@ -546,17 +561,16 @@ def apply(w, m, op, check):
 
     name = op[0]
     viols = []
-    pre = snap(w) if check and (name in CONTRACT) else None
+    pre = snap(w) if check else None
     post = None  # post-condition closure
     method = None
-    expect_sort = None
     try:
         if name in ("add", "addDup", "addWrongType"):
             P, X = w.objs[op[1]], w.objs[op[2]]
             method = _method(P, "add")
             P.add(X)
             if name == "add":
-                m.kids[op[1]].append(op[2])
+                _model_simple(w, m, op)
                 if w.kind[op[1]] == "A":
                     post = ("axial", P)
         elif name in ("insert", "insertDup"):
@@ -565,14 +579,14 @@ def apply(w, m, op, check):
             idx = 0 if op[2] == 0 else len(m.kids[op[1]])
             P.insert(idx, X)
             if name == "insert":
-                m.kids[op[1]].insert(idx, op[3])
+                _model_simple(w, m, op)
                 if w.kind[op[1]] == "A":
                     post = ("axial1", P, X, idx)
         elif name == "remove":
             P = w.objs[op[1]]
             method = _method(P, "remove")
             P.remove(_pick(P, op[2]))
-            m.kids[op[1]].pop(0 if op[2] == 0 else -1)
+            _model_simple(w, m, op)
         elif name == "removeForeign":
             P, X = w.objs[op[1]], w.objs[op[2]]
             method = _method(P, "remove") + "-nonchild"
@@ -581,28 +595,38 @@ def apply(w, m, op, check):
             P = w.objs[op[1]]
             method = _method(P, "removeAll")
             P.removeAll()
-            m.kids[op[1]] = []
+            _model_simple(w, m, op)
         elif name == "setChildren":
             P = w.objs[op[1]]
             method = _method(P, "setChildren")
             ks = [c for c in P]
             P.setChildren(ks[::-1] if op[2] == "rev" else ks[1:])
-            mk = m.kids[op[1]]
-            m.kids[op[1]] = mk[::-1] if op[2] == "rev" else mk[1:]
+            _model_simple(w, m, op)
         elif name == "sort":
             P = w.objs[op[1]]
             method = _method(P, "sort")
+            before = {}
+            _child_lists(P, before)
+            real_exc = None
+            try:
+                P.sort()
+            except Exception as e:
+                real_exc = type(e).__name__
+            # the reference is computed AFTER the run under test (a component's '<' fills caches)
             acc = []
             try:
-                _model_sort(P, acc)
-                expect_sort = ("ok", acc)
+                _model_sort(P, before, acc)
+                expect = None
             except Exception as e:  # the objects' own comparison refuses
-                expect_sort = ("raise", type(e).__name__)
-            P.sort()
-            if expect_sort[0] == "raise":
-                viols.append(_v("sort-accepted-where-comparison-raises/" + method, "sorted() of the same children raises %s but %s succeeded" % (expect_sort[1], method), w, op))
+                expect = type(e).__name__
+            if "RecursionError" in (real_exc, expect):
+                # e.g. two DerivedShapes in one block: '<' recurses without end, and whether it does depends
+                # on cached values - no reference order exists; the children must still be the same objects
                 _resync(w, m, viols, op)
-            else:
+                if check:
+                    _cnt("sort:comparison-recurses-no-reference")
+                return ("refused:" + real_exc) if real_exc else "ok", viols
+            if real_exc is None and expect is None:
                 changed = False
                 for o, ks in acc:
                     new = [w.lab[id(c)] for c in ks]
@@ -611,6 +635,20 @@ def apply(w, m, op, check):
                     m.kids[w.lab[id(o)]] = new
                 if check:
                     _cnt("sort:reordered" if changed else "sort:noop")
+            elif real_exc is not None and real_exc == expect and real_exc in CONTRACT["sort"]:
+                # list.sort() documents that a failing comparison may leave the list partly permuted:
+                # the children must still be the same objects; the model takes the order found.
+                _resync(w, m, viols, op)
+                if check:
+                    _cnt("refused:sort")
+                return "refused:" + real_exc, viols
+            elif real_exc is None:
+                viols.append(_v("sort-accepted-where-comparison-raises/" + method, "sorted() of the same children raises %s but %s succeeded" % (expect, method), w, op))
+                _resync(w, m, viols, op)
+            else:
+                viols.append(_v("sort-raises-" + real_exc + "/" + method, "%s raised %s; sorted() of the same children %s" % (method, real_exc, "succeeds" if expect is None else "raises " + expect), w, op))
+                _resync(w, m, viols, op)
+                return "raised:" + real_exc, viols
         elif name == "reorder":
             P = w.objs[op[1]]
             method = _method(P, "reestablishBlockOrder")
@@ -629,6 +667,7 @@ def apply(w, m, op, check):
                     new.append(w.new(c))
                     m.kids[new[-1]] = []
             m.kids[op[1]] = new
+            w.flags[op[1]] = fnames(B.p.flags)  # the block takes over the replacement's parameters, flags included
             if len(new) != len(m.kids[op[2]]) or [type(c) for c in B] != [type(w.objs[k]) for k in m.kids[op[2]]]:
                 viols.append(_v("replace-shape/" + method, "replacement has %d children, block now has %d" % (len(m.kids[op[2]]), len(new)), w, op))
         elif name == "coreRemove":
@@ -636,9 +675,7 @@ def apply(w, m, op, check):
             method = _method(C, "removeAssembly")
             a = _pick(C, op[1])
             C.removeAssembly(a)
-            la = m.kids[w.cfg["core"]].pop(0 if op[1] == 0 else -1)
-            if w.init.get("track"):
-                m.kids[w.cfg["sfp"]].append(la)
+            _model_simple(w, m, op)
         elif name in ("coreAdd", "coreAddOcc"):
             C, X = w.objs[w.cfg["core"]], w.objs[op[1]]
             method = _method(C, "add") + ("-occupied" if name == "coreAddOcc" else "")
@@ -651,13 +688,13 @@ def apply(w, m, op, check):
                 cell = (int(sl.i), int(sl.j))
             C.add(X, C.spatialGrid[cell[0], cell[1], 0])
             if name == "coreAdd":
-                m.kids[w.cfg["core"]].append(op[1])
+                _model_simple(w, m, op)
                 post = ("cell", C, X, cell)
         elif name == "sfpAdd":
             S, X = w.objs[w.cfg["sfp"]], w.objs[op[1]]
             method = _method(S, "add")
             S.add(X)
-            m.kids[w.cfg["sfp"]].append(op[1])
+            _model_simple(w, m, op)
         else:
             raise RuntimeError("unknown op %r" % (op,))
     except Exception as e:
@@ -666,14 +703,7 @@ def apply(w, m, op, check):
             raise
         if exc == "RuntimeError" and "unknown op" in str(e):
             raise
-        if name == "sort" and expect_sort and expect_sort[0] == "raise" and exc == expect_sort[1] and exc in CONTRACT["sort"]:
-            # list.sort() documents that a failing comparison may leave the list partly permuted:
-            # the children must still be the same objects; the model takes the order found.
-            _resync(w, m, viols, op)
-            if check:
-                _cnt("refused:sort")
-            return "refused:" + exc, viols
-        if exc in CONTRACT.get(name, ()) and name != "sort":
+        if exc in CONTRACT.get(name, ()):
             if check:
                 _cnt("refused:" + name)
                 now = snap(w)
@@ -700,7 +730,24 @@ def apply(w, m, op, check):
                 )
             )
             return "raised:" + exc, viols
-        viols.append(_v("op-raises-" + exc + "/" + method, "%s raised %s: %s" % (op, exc, str(e)[:200]), w, op))
+        # an operation of the alphabet raised: the property speaks about the tree afterwards - the edit
+        # must have been applied completely or not at all
+        real = {l: [w.L(c) for c in o] for l, o in enumerate(w.objs)}
+        if real == m.kids:
+            if check:
+                _cnt("raised-unapplied:%s:%s" % (method, exc))
+                now = snap(w)
+                if now != pre:
+                    viols.append(_v("refusal-mutates/" + method, "%s raised %s (%s) without applying the edit, but the model changed: %s" % (op, exc, str(e)[:100], _snapdiff(pre, now)), w, op))
+            return "raised-unapplied:" + exc, viols
+        m2 = Model.__new__(Model)
+        m2.kids, m2.root = {k: list(v) for k, v in m.kids.items()}, m.root
+        if _model_simple(w, m2, op) and real == m2.kids:
+            m.kids = m2.kids
+            if check:
+                _cnt("raised-applied:%s:%s" % (method, exc))
+            return "raised-applied:" + exc, viols
+        viols.append(_v("op-fails-midway-" + exc + "/" + method, "%s raised %s (%s) and left the child lists neither as before nor as after the edit" % (op, exc, str(e)[:160]), w, op))
         return "raised:" + exc, viols
     if name in MISUSE:
         viols.append(_v("misuse-accepted/" + method, "%s was accepted (documented refusal: %s)" % (op, "/".join(CONTRACT[name])), w, op))
@@ -728,6 +775,33 @@ def apply(w, m, op, check):
     return "ok", viols
 
 
+def _model_simple(w, m, op):
+    """Reference semantics of the plain list edits.  False if ``op`` is not one of them."""
+    name = op[0]
+    if name == "add":
+        m.kids[op[1]].append(op[2])
+    elif name == "insert":
+        m.kids[op[1]].insert(0 if op[2] == 0 else len(m.kids[op[1]]), op[3])
+    elif name == "remove":
+        m.kids[op[1]].pop(0 if op[2] == 0 else -1)
+    elif name == "removeAll":
+        m.kids[op[1]] = []
+    elif name == "setChildren":
+        mk = m.kids[op[1]]
+        m.kids[op[1]] = mk[::-1] if op[2] == "rev" else mk[1:]
+    elif name == "coreRemove":
+        la = m.kids[w.cfg["core"]].pop(0 if op[1] == 0 else -1)
+        if w.init.get("track"):
+            m.kids[w.cfg["sfp"]].append(la)
+    elif name == "coreAdd":
+        m.kids[w.cfg["core"]].append(op[1])
+    elif name == "sfpAdd":
+        m.kids[w.cfg["sfp"]].append(op[1])
+    else:
+        return False
+    return True
+
+
 def _resync(w, m, viols, op):
     """After a (legitimately) failed sort: same children, possibly permuted."""
     for l, o in enumerate(w.objs):
@@ -743,7 +817,7 @@ def _snapdiff(a, b):
     out = []
     for x, y in zip(a, b):
         if x != y:
-            for nm, u, v in zip(("label", "parent", "children", "name", "locator", "grid"), x, y):
+            for nm, u, v in zip(("label", "parent", "children", "name/type/flags", "locator", "grid"), x, y):
                 if u != v:
                     out.append("node %s %s: %s -> %s" % (x[0], nm, u, v))
     if len(a) != len(b):
@@ -851,7 +925,7 @@ def check_structure(w, m, tag):
             listed.setdefault(id(c), []).append(l)
         g = o.spatialGrid
         if g is not None and g.armiObject is not o:
-            viols.append(_v("grid-owner-mismatch/after-" + tag, "grid of node %s is owned by %s" % (l, None if g.armiObject is None else w.L(g.armiObject)), w))
+            viols.append(_v("grid-owner-mismatch", "grid of node %s is owned by %s" % (l, None if g.armiObject is None else w.L(g.armiObject)), w))
         # measured, not asserted (the statement speaks of locators only for removed objects and copies)
         for c in real:
             sl = c.spatialLocator
@@ -872,7 +946,7 @@ def check_structure(w, m, tag):
             if att:
                 viols.append(
                     _v(
-                        "detached-multilocation-sublocations-attached/after-" + tag,
+                        "detached-multilocation-sublocations-attached",
                         "node %s is out of the model, its multi-location reports grid None, but %d of its %d sub-locations are still in the grid of node %s" % (x, len(att), len(sl), _own(w, att[0].grid)),
                         w,
                     )
@@ -993,7 +1067,6 @@ def check_queries(w, m):
             if got != i:
                 bad("index", "node %s: index(child #%d) gives %s" % (l, i, got))
     # ancestors (reference: parent chain of the MODEL)
-    top = w.objs[w.root]
     for l, o in enumerate(w.objs):
         chain = [l]
         while chain[-1] in par:
@@ -1137,6 +1210,8 @@ def check_copy(w, o, c, how):
                 pairs = [(lx, ly)]
                 if isinstance(lx, grids.MultiIndexLocation) and isinstance(ly, grids.MultiIndexLocation) and len(lx) == len(ly):
                     pairs += list(zip(list(lx), list(ly)))
+                    if ly.grid is gb and gb is not None and all(u.grid is lx.grid for u in lx) and any(v.grid is not gb for v in ly):
+                        bad("multilocation-sublocations-not-relinked", "at %s.%d: the copied multi-location is in its new parent's grid but %d of its sub-locations are not" % (path, i, len([v for v in ly if v.grid is not gb])))
                 for u, v in pairs:
                     if id(v) in ols:
                         bad("shares-locator", "at %s.%d the copy holds a (sub-)locator object of the original" % (path, i))
@@ -1225,11 +1300,22 @@ def expand(item):
         else:
             viols += vs
             tag = op[0]
+    tol = init.get("tolerate") or []
+
+    def drop(vs):
+        keep = []
+        for v in vs:
+            if v["key"] in tol:
+                _cnt("tolerated:" + v["key"])
+            else:
+                keep.append(v)
+        return keep
+
     if not viols:
-        viols += check_structure(w, m, tag)
+        viols += drop(check_structure(w, m, tag))
     if not viols:
-        viols += check_queries(w, m)
-        viols += check_copies(w, m)
+        viols += drop(check_queries(w, m))
+        viols += drop(check_copies(w, m))
     if out != "ok" and not viols and hist:
         _cnt("outcome:" + out.split(":")[0])
     res = {
@@ -1238,7 +1324,10 @@ def expand(item):
         "viols": viols[:6],
         "ops": enabled_ops(w, m) if not viols else [],
         "out": out,
-        "terminal": out != "ok" and bool(hist),  # a refusal leaves the state where it was
+        # never terminal: a refusal that leaves the state where it was has the canonical form of its
+        # parent state (already seen, not extended again); a refused sort may leave siblings permuted -
+        # such a state must be extended like any other, or the explored set would depend on the order
+        "terminal": False,
     }
     return res
 
@@ -1254,15 +1343,123 @@ def audit_item(item):
     return {"same": a["canon"] == b["canon"] and a["full"] == b["full"] and a["out"] == b["out"], "ops": a["ops"]}
 
 
+def selftest():
+    """The oracles must see deliberate damage (done through private attributes, on scratch objects)."""
+    import copy
+
+    init = {"shape": "a", "n": 7, "seed": 0}
+    seen = 0
+
+    def fresh():
+        w = build_world(init)
+        return w, Model(w)
+
+    def s_parent(w):
+        w.objs[3].parent = None
+
+    def s_dup(w):
+        w.objs[0]._children.append(w.objs[1])
+
+    def s_two(w):
+        w.objs[2]._children.append(w.objs[3])
+
+    def s_pool(w):
+        w.objs[5].parent = w.objs[0]
+
+    def s_loc(w):
+        w.objs[6].spatialLocator = w.objs[0].spatialGrid[0, 0, 0]
+
+    def s_grid(w):
+        w.objs[1].spatialGrid.armiObject = w.objs[2]
+
+    for f in (s_parent, s_dup, s_two, s_pool, s_loc, s_grid):
+        w, m = fresh()
+        f(w)
+        if not check_structure(w, m, "selftest"):
+            raise core.HarnessError("C01 selftest: structure oracle is blind to %s" % f.__name__)
+        seen += 1
+
+    def c_parent(o, c):
+        c[0].parent = o
+
+    def c_share(o, c):
+        c._children[0] = o[0]
+
+    def c_grid(o, c):
+        c.spatialGrid.armiObject = o
+
+    def c_loc(o, c):
+        c[0].spatialLocator = o.spatialGrid[2, 0, 0]
+
+    def c_shape(o, c):
+        c[0]._children.pop()
+
+    def c_root(o, c):
+        c.parent = o
+
+    def c_detached(o, c):
+        c[1].spatialLocator = c[1].spatialLocator.detachedCopy()
+
+    for f in (c_parent, c_share, c_grid, c_loc, c_shape, c_root, c_detached):
+        w, m = fresh()
+        o = w.objs[0]
+        c = copy.deepcopy(o)
+        if check_copy(w, o, c, "deepcopy"):
+            break  # the code under test already copies wrongly: the search below reports it
+        f(o, c)
+        if not check_copy(w, o, c, "deepcopy"):
+            raise core.HarnessError("C01 selftest: copy oracle is blind to %s" % f.__name__)
+        seen += 1
+
+    # a traversal that reorders must be seen by the query oracle
+    w, m = fresh()
+    real = type(w.objs[0]).getChildren
+
+    def lying(self, deep=False, generationNum=1, includeMaterials=False, predicate=None):
+        out = real(self, deep=deep, generationNum=generationNum, includeMaterials=includeMaterials, predicate=predicate)
+        return out[::-1] if deep else out
+
+    type(w.objs[0]).getChildren = lying
+    try:
+        vs = check_queries(w, m)
+    finally:
+        del type(w.objs[0]).getChildren  # Generic defines none of its own
+    if not any("deep" in v["key"] for v in vs):
+        raise core.HarnessError("C01 selftest: query oracle is blind to a reversed deep traversal")
+    seen += 1
+    _CNT.clear()
+    return seen
+
+
 def run(ctx):
     total = {}
+    ctx.count("selftest:deliberate-damages-seen", selftest())
     closure_by_shape = {}
     t_by_shape = {}
+    blocked = {}
     for name, init, depth in inits(ctx):
         t0 = time.time()
         ctx.log("shape %s: %s" % (name, "to closure" if depth is None else "depth %d" % depth))
-        st = explore.bfs(ctx, MOD, [init], depth if depth is not None else CLOSURE_DEPTH, max_states=CLOSURE_CAP[ctx.tier] if depth is None else None)
+        nv = len(ctx.violations)
+        dd, cap = (depth if depth is not None else CLOSURE_DEPTH), (CLOSURE_CAP[ctx.tier] if depth is None else None)
+        st = explore.bfs(ctx, MOD, [init], dd, max_states=cap)
+        tol = []
+        for _pass in range(3):
+            # a state with a violation is not extended; for a violation of a pure observer (model and
+            # tree still in step) the search is repeated with that class tolerated (it has been
+            # reported above), so that the states *behind* it are explored as well
+            more = sorted(k for k in set(v["key"] for v in ctx.violations[nv:]) if tolerable(k) and k not in tol)
+            if not more:
+                break
+            tol = sorted(tol + more)
+            ctx.log("shape %s: repeating with %s tolerated (reported above) to reach the states behind" % (name, tol))
+            blocked.setdefault(name, {"states": st["states"], "transitions": st["transitions"]})["tolerated"] = tol
+            st = explore.bfs(ctx, MOD, [dict(init, tolerate=tol)], dd, max_states=cap)
         explore.merge_stats(total, st)
+        # explore.bfs reports closure=True whenever the depth bound is reached (its last level is never
+        # extended); closure is claimed here only if the last executed level found no new canonical state
+        total["searches"][-1]["closure"] = bool(st["levels"]) and st["levels"][-1]["new_states"] == 0 and not st["capped"]
+        st["closure"] = total["searches"][-1]["closure"]
         total["searches"][-1]["shape"] = name
         total["searches"][-1]["states"] = st["states"]
         total["searches"][-1]["transitions"] = st["transitions"]
@@ -1285,22 +1482,34 @@ def run(ctx):
     # counters from the workers
     workers = int(os.environ.get("VERIF_WORKERS", "16"))
     got = {}
+    pids = set()
     for attempt in range(3):
-        res = core.pmap(MOD, "_collect", [{"sleep": 0.4 + 0.4 * attempt, "i": i} for i in range(max(4, workers))], chunksize=1)
+        res = core.pmap(MOD, "_collect", [{"sleep": 0.3 + 0.3 * attempt, "i": i} for i in range(max(4, workers))], chunksize=1)
         for r in res:
+            pids.add(r["pid"])
             for k, v in r["cnt"].items():
                 got[k] = got.get(k, 0) + v
+    got["collect:worker-processes-reporting"] = len(pids)
     for k, v in dict(_CNT).items():
         got[k] = got.get(k, 0) + v
     _CNT.clear()
     for k, v in sorted(got.items()):
         ctx.count(k, v)
+    if got.get("note:attached-child-locator-in-foreign-grid"):
+        ctx.notes.append(
+            "%d observations of an attached child whose locator lives in a grid that is not its parent's (replaceBlockWithBlock leaves the new components in the grid of its throw-away copy): measured, not asserted - the statement constrains locators of removed objects and of copies only"
+            % got["note:attached-child-locator-in-foreign-grid"]
+        )
+    nra = sum(v for k, v in got.items() if k.startswith("raised-applied:"))
+    if nra:
+        ctx.notes.append("%d edits raised after the structural edit had been applied completely (%s): tree checked as usual, not a violation of the statement" % (nra, ", ".join(sorted(k.split(":", 1)[1] for k in got if k.startswith("raised-applied:")))))
     explore.finish(
         ctx,
         total,
         extra={
             "closure_by_shape": closure_by_shape,
             "wall_s_by_shape": t_by_shape,
+            "first_pass_blocked_by_violation": blocked,
             "bounds": {"tier": ctx.tier, "depths": BOUNDS[ctx.tier], "closure_depth_limit": CLOSURE_DEPTH, "closure_state_cap": CLOSURE_CAP[ctx.tier], "pool_cap": POOL_CAP},
             "queries_per_state": "every labelled container x (children, iter, getitem, deep, generation 1-4, deep+generation refusal, includeMaterials x2, %d flag specs x exact x {getComponents, iterComponents, getChildrenWithFlags}, getChildrenOfType per type, 3 predicates x {direct, deep, generation 2}, in for every node, index) + ancestors for every node" % len(SPECS),
         },
